@@ -411,6 +411,63 @@ struct Gen {
         }
     }
 
+    /** extended key whose path certainly contains a multipath specifier (2-3 items), optionally ranged */
+    std::string forced_mp_xkey()
+    {
+        ++n_keys;
+        const PoolXKey& x = g.xkeys[take(free_xkeys)];
+        const bool priv = s.chance(60);
+        if (priv) has_priv = true;
+        std::string r = priv ? x.xprv : x.xpub;
+        if (s.boolean()) r += "/" + elem(false);
+        if (mp_len == 0) mp_len = s.range<int>(2, 3);
+        has_multipath = true;
+        r += "/<";
+        for (int j = 0; j < mp_len; ++j) r += (j ? ";" : "") + std::to_string(j * 7 + s.range<int>(0, 5));
+        r += ">";
+        if (s.boolean()) { r += "/*"; has_range = true; }
+        st.cls("key:xpub");
+        return r;
+    }
+
+    /** key expression without multipath, valid in a tapscript leaf */
+    std::string plain_tr_key()
+    {
+        ++n_keys;
+        switch (s.range<int>(0, 4)) {
+        case 0: return g.keys[take(free_keys)].hex_x;
+        case 1: return g.keys[take(free_keys)].hex_c;
+        case 2: has_priv = true; return g.keys[take(free_keys)].wif_c;
+        case 3: return g.xkeys[take(free_xkeys)].xpub + "/0";
+        default: has_range = true; return g.xkeys[take(free_xkeys)].xpub + "/1/*";
+        }
+    }
+
+    /** tr() in which one part is multipath and at least one leaf is a plain (non-multipath) pk(): expanding descriptors #1.. has to
+     *  duplicate the plain parts */
+    std::string tr_multipath_with_plain_leaf()
+    {
+        st.cls("tr");
+        st.cls("tr-multipath-plain-pk");
+        const bool mp_internal = s.boolean();
+        std::string internal = mp_internal ? forced_mp_xkey() : plain_tr_key();
+        std::string plain = "pk(" + plain_tr_key() + ")";
+        std::string other;
+        switch (s.range<int>(0, 3)) {
+        case 0: other = "pk(" + forced_mp_xkey() + ")"; break;
+        case 1: other = "multi_a(1," + forced_mp_xkey() + "," + plain_tr_key() + ")"; break;
+        case 2: other = "multi_a(2," + plain_tr_key() + "," + plain_tr_key() + ")"; break;   // plain keys inside multi_a
+        default: other = "and_v(v:pk(" + plain_tr_key() + "),older(" + older() + "))"; break;
+        }
+        if (!mp_internal && other.find('<') == std::string::npos) other = "pk(" + forced_mp_xkey() + ")";
+        switch (s.range<int>(0, 3)) {
+        case 0: return "tr(" + internal + "," + (mp_internal ? plain : "{" + plain + "," + other + "}") + ")";
+        case 1: return "tr(" + internal + ",{" + plain + "," + other + "})";
+        case 2: return "tr(" + internal + ",{" + other + "," + plain + "})";
+        default: return "tr(" + internal + ",{{" + plain + ",pk(" + plain_tr_key() + ")}," + other + "})";
+        }
+    }
+
     std::string script(Ctx ctx)
     {
         int kind;
@@ -430,8 +487,8 @@ struct Gen {
         case 5: return multi(ctx, "sortedmulti", ctx == Ctx::TOP ? 3 : (ctx == Ctx::P2SH ? 15 : 20));
         case 6: st.cls("sh"); return "sh(" + script(Ctx::P2SH) + ")";
         case 7: st.cls("wsh"); return "wsh(" + script(Ctx::P2WSH) + ")";
-        case 8:
-        case 9: {
+        case 9: return tr_multipath_with_plain_leaf();
+        case 8: {
             st.cls("tr");
             std::string r = "tr(" + key(Ctx::P2TR);
             if (s.chance(170)) r += "," + tree(0);
@@ -565,6 +622,7 @@ VERIF_TARGET(c45_descriptor, init_c45_desc, 12, 260,
     st.cls("accepted");
     if (gen.has_multipath) st.cls("multipath");
     if (p.descs.size() > 1) st.cls("multipath-expanded");
+    if (p.descs.size() > 1 && st.classes.count("tr-multipath-plain-pk")) st.cls("tr-multipath-plain-pk:expanded");
     if (gen.has_priv) st.cls("private-keys");
     if (gen.has_hardened) st.cls("hardened");
     if (gen.has_range) st.cls("ranged");
